@@ -700,7 +700,7 @@ def graph_features(req):
 
 
 # ------------------------------------------------------------------------------------------------ selective generation
-LINKS = ["plain", "repeated", "optional", "map", "map", "oneof", "nested", "nested-enum-holder"]
+LINKS = ["plain", "repeated", "optional", "map", "map", "oneof", "nested", "nested-enum-holder", "xchain", "xchain"]
 
 
 def selective_api(r, force=None):
@@ -751,9 +751,68 @@ def selective_api(r, force=None):
             ne = inner.enum("Mode", ["MODE_UNSPECIFIED", "ON"])
             inner.field("mode", 1, ("enum", ne)).map_field("leafs", 2, "string", ty)
             msg.map_field(f"{tag}_holders", num, "int64", inner.fqn)
+        elif how == "xchain":
+            xchain(msg, num, k, fq, tag)
         # proto3 optional last: synthetic oneofs must follow the declared ones
         elif how == "optional":
             pass
+
+    chain_no = [0]
+
+    def xchain(msg, num, k, fq, tag):
+        """msg -> Outer.Mid ONLY (a type nested in a top-level message nothing else names); Outer's OWN field -> Other.Inner
+        (nested in a second top-level message nothing else names); Other's own field -> Third.Leaf (2 or 3 steps); the last
+        step holds the rpc's private leaf.  Each step is a nested message or a nested enum, linked plainly / repeated / as a
+        map value / inside a oneof.  Every top-level message of the chain is needed only as the ENCLOSER of a needed type."""
+        c = chain_no[0]
+        chain_no[0] += 1
+        depth = r.choice([2, 2, 3])
+        feats.add(f"sel-xchain-depth={depth}")
+        leaf_file = next(f for kk, q, f in leaves if q == fq)
+        files = []
+        for lvl in range(depth + 1):
+            prev = files[-1] if files else main
+            # res.proto cannot import main.proto: once a level is in res.proto the deeper ones are as well
+            files.append(res if prev is res and lvl > 0 else r.choice([res, main]))
+        names = ["Outer", "Other", "Third", "Fourth"]
+        tops = [files[lvl].message(f"{names[lvl]}{c}") for lvl in range(depth + 1)]
+        if len({id(f) for f in files}) > 1:
+            feats.add("sel-xchain-across-files")
+        # the nested type of each level that the level above refers to
+        inner = []
+        for lvl, top in enumerate(tops):
+            last = lvl == depth
+            as_enum = (not last) and lvl > 0 and r.random() < 0.3
+            if as_enum:
+                ne = top.enum(f"Kind{lvl}", [f"KIND{lvl}_UNSPECIFIED", (f"KIND{lvl}_ONE", 1), (f"KIND{lvl}_SIX", 6)])
+                inner.append(("e", ne))
+                feats.add("sel-xchain-step=nested-enum")
+            else:
+                nm = top.nested(["Mid", "Inner", "Leaf", "Tip"][lvl])
+                nm.field("y", 1, r.choice(["int32", "string", "sfixed64", "bool"]))
+                if last and not (files[lvl] is res and leaf_file is main):
+                    nm.field("leaf", 2, ("enum", fq) if k == "e" else fq)
+                inner.append(("m", nm.fqn))
+                feats.add("sel-xchain-step=nested-message")
+        # the enclosing message's OWN field (not a field of the nested type) names the next level's nested type
+        for lvl in range(depth):
+            kk, q = inner[lvl + 1]
+            ty = ("enum", q) if kk == "e" else q
+            top = tops[lvl]
+            style = r.choice(["plain", "plain", "repeated", "map", "oneof"])
+            feats.add(f"sel-xchain-link={style}")
+            top.field("label", 1, "string")
+            if style == "plain":
+                top.field("next", 2, ty)
+            elif style == "repeated":
+                top.field("nexts", 2, ty, repeated=True)
+            elif style == "map":
+                top.map_field("next_by", 2, r.choice(["string", "int32", "bool"]), ty)
+            else:
+                top.field("alt", 2, "string", oneof="pick").field("next", 3, ty, oneof="pick")
+        tops[depth].field("label", 1, "string")
+        k0, q0 = inner[0]
+        msg.field(f"{tag}_mid", num, q0)
 
     svc = main.service("Sel", host="sel.example.com")
     nrpc = r.randint(3, 5)
@@ -789,10 +848,10 @@ def selective_api(r, force=None):
     return request, rpcs, io, sorted(feats)
 
 
-def selective_yaml(rpcs_all, methods):
+def selective_yaml(rpcs_all, methods, internal=False):
     return {"type": "google.api.Service", "config_version": 3, "apis": [{"name": f"{TARGET}.Sel"}],
             "publishing": {"library_settings": [{"version": TARGET, "python_settings": {"common": {
-                "selective_gapic_generation": {"methods": list(methods), "generate_omitted_as_internal": False}}}}]}}
+                "selective_gapic_generation": {"methods": list(methods), "generate_omitted_as_internal": bool(internal)}}}}]}}
 
 
 # ------------------------------------------------------------------------------------------------ option proto-plus-deps
